@@ -46,6 +46,7 @@ func replay(cw *caseWriter, path string) {
 				c07nMonitor(cw)(tag, in, obs)
 				c10monitor(cw)(tag, in, obs)
 				c12monitor(cw)(tag, in, obs)
+				c11monitor(cw)(tag, in, obs)
 			})
 		case 7:
 			c07exec(cw, tag, in, true)
